@@ -501,6 +501,9 @@ class FakeImporter:
 
     def import_module(self, name, package=None):
         self.requested.append(name)
+        real = getattr(self, "passthrough", {}).get(name)
+        if real is not None:
+            return real                 # a shipped module that is itself part of the code under test
         if not self.present(name):
             raise ModuleNotFoundError("No module named %r" % (name,))
         return FixtureModule(self, name)
